@@ -9,7 +9,8 @@
 (*            element of a std::vector<T>, a member of a holder, first_of(v), the ranged-for  *)
 (*            variable over a std::vector<T>): the object lives only while its OWNER does -   *)
 (*            a named variable, or a temporary that dies with the full expression (the        *)
-(*            engine keeps call operands until the outermost call of the expression ends).    *)
+(*            engine keeps call operands until the outermost call of the expression ends;     *)
+(*            an object made by a user conversion for a C++ parameter is such an operand).     *)
 (* (For a temporary owner the model takes the earliest end the engine may choose - the end   *)
 (* of the statement; inside a function the engine keeps operands until the outermost call    *)
 (* returns, so some paths the model calls dangling are clean in the engine: accepted.)       *)
@@ -26,11 +27,14 @@ EXTENDS Integers, Sequences, FiniteSets, TLC, Json, IOUtils, SequencesExt
 
 \* source -> <<cell kind, owner kind>>
 Sources == {"own_ctor", "own_make", "own_sp", "own_up", "own_var", "own_vecelem",
+            "own_downcast",      \* a shared_ptr<Base> that really holds a Derived, converted DOWN for a typed script parameter: the converted value shares ownership
+            "own_upcast",        \* a Derived held by shared_ptr, converted UP for a typed script parameter
             "bor_tvtemp", "bor_holdtemp_inner", "bor_holdtemp_member", "bor_first_temp",
             "bor_stv", "bor_sholder_inner", "bor_sholder_member",      \* the temporary owner is what a SCRIPT function returned (one of its locals)
+            "bor_conv_ref", "bor_conv_ptr",      \* the temporary owner is the object a USER CONVERSION made for a C++ parameter; the function hands back a reference / pointer to it
             "bor_tvvar", "bor_holdvar_inner", "bor_holdvar_member", "bor_first_var", "bor_rfor"}
-CellOf(s) == IF s \in {"own_ctor", "own_make", "own_sp", "own_up", "own_var", "own_vecelem"} THEN "own" ELSE "borrow"
-OwnerOf(s) == CASE s \in {"own_ctor", "own_make", "own_sp", "own_up"} -> "self"
+CellOf(s) == IF s \in {"own_ctor", "own_make", "own_sp", "own_up", "own_var", "own_vecelem", "own_downcast", "own_upcast"} THEN "own" ELSE "borrow"
+OwnerOf(s) == CASE s \in {"own_ctor", "own_make", "own_sp", "own_up", "own_downcast", "own_upcast"} -> "self"
                 [] s \in {"own_var", "own_vecelem", "bor_tvvar", "bor_holdvar_inner", "bor_holdvar_member", "bor_first_var", "bor_rfor"} -> "named"
                 [] OTHER -> "temp"
 \* binders: keep the same cell                                   or make a new object (clone)
@@ -47,7 +51,7 @@ Applicable(s, b, e) ==
 \* ----------------------------------------------------------------- the machine
 \* st: [cell: "own"|"borrow"|"clone"|"rejected", ownerKind, ownerAlive, stage, dangling]
 Obtain(s) == [cell |-> CellOf(s), ownerKind |-> OwnerOf(s), ownerAlive |-> TRUE, stage |-> "obtained", used |-> FALSE, dangling |-> FALSE,
-              shareable |-> (CellOf(s) = "own" /\ s # "own_up")]        \* a unique_ptr result is held as such: it does not convert to shared_ptr<T> either
+              shareable |-> (CellOf(s) = "own" /\ s \notin {"own_up", "own_downcast", "own_upcast"})]   \* a unique_ptr result is held as such: it does not convert to shared_ptr<T> either; the hierarchy objects are not of the kept class
 Bind(st, b) ==
   IF b \in CloningB THEN [st EXCEPT !.cell = "clone", !.stage = "bound"]                       \* a new object owned by the holder
   ELSE IF b = "keep_sp" /\ ~st.shareable THEN [st EXCEPT !.cell = "rejected", !.stage = "bound"]       \* a bare reference does not convert to shared_ptr<T>
